@@ -340,7 +340,7 @@ CHECKS["C20"] = dict(
                 "every one sent well before the deadline and none sent well after it); nil/complete results imply elapsed >= timeout; "
                 "elapsed <= timeout + 1 s unless a control sleep beside the call shows a scheduler stall; exactly one request whose reply "
                 "address is the datagram's source; receiver goroutine and file descriptors are gone after return."),
-    level_note="Trusted: the in-process decode as expected value; margin = max(50 ms, timeout/2) around the deadline (and the first 30 ms of a discovery, before its socket can have joined the group) is a don't-care window. The number of discovery requests is not observed (the request is multicast without loopback).",
+    level_note="Trusted: the in-process decode as expected value; margin = max(50 ms, timeout/2) around the deadline (and the first 30 ms of a discovery, before its socket can have joined the group) is a don't-care window. The number of discovery requests is counted through a packet socket (self-checked with a marker; skipped without CAP_NET_RAW).",
     technique="rapid-generated responder scripts against live loopback/multicast sockets; first-match / subsequence oracle with don't-care windows, lower/upper time bounds with a scheduler-health control",
     assumptions=_SOCK_ASSUME,
     jobs=[dict(name="sock", pkg="./sock", go=GO, test="TestC20", shards=(8, 16), checks=(30, 500), timeout=(600, 3000))],
